@@ -186,9 +186,13 @@ def check_tree(t, shape, names, maxcomp, only=None, kind="user"):
                 if strict[0] == "error":
                     t.c["strict_raises:" + strict[1]] += 1
                 if why:
-                    t.violation("C08: glob(%r): %s" % (path, why),
+                    # does the wrong answer depend on earlier calls in this process (the shared pattern cache)?
+                    _reset_cache()
+                    again = (call(res[(ic, True)], nodes[start], path, idm), call(res[(ic, False)], nodes[start], path, idm))
+                    hist = again != (relaxed, strict)
+                    t.violation("C08: glob(%r): %s%s" % (path, why, " [only after earlier calls: the result depends on call history]" if hist else ""),
                                 dict(ctx, engine="E2", module=MOD, part="semantics", start=start, path=path, ignorecase=ic,
-                                     denotation=sorted(D), relaxed=relaxed, strict=strict))
+                                     denotation=sorted(D), relaxed=relaxed, strict=strict, history_dependent=hist))
         t.obs((shape, names, start, t.c["evaluations"]))
     if not only:
         t.sample({"shape": shape, "names": list(names), "patterns": pats[:5] + pats[-5:]}, cap=1)
@@ -335,6 +339,14 @@ def replay(c):
         got = idm.seq(out)
         print("history:", hist, "observed:", got, "expected:", sorted(exp))
         return ["glob result depends on earlier calls"] if set(got) != exp or len(set(got)) != len(got) else []
+    if c.get("history_dependent"):
+        # the recorded single call is fine in a fresh process; re-run the cache-history exploration (depth 3) instead
+        for ev in e3_events():
+            t.merge(e3_explore(3, [ev]))
+            if t.violations:
+                print("history found by the cache explorer:", t.violations[0]["case"]["history"])
+                break
+        return [v["why"] for v in t.violations]
     check_tree(t, _tup(c["shape"]), tuple(c["names"]), 3, (c["start"], c["path"], c["ignorecase"]), c.get("kind", "user"))
     return [v["why"] for v in t.violations]
 
